@@ -255,7 +255,11 @@ void dump_record(const RunRecord& rec) {
       fprintf(stderr, "---- file %s (%zu bytes):\n%s\n", kv.first.c_str(), kv.second.size(), kv.second.c_str());
   fprintf(stderr, "---- stub: %zu vars, %zu cons, %zu objs\n", rec.stub.vars.size(), rec.stub.cons.size(), rec.stub.objs.size());
   for (size_t j = 0; j < rec.stub.vars.size(); ++j) fprintf(stderr, "  var[%zu] [%g,%g] t%d %s'%s'\n", j, rec.stub.vars[j].lb, rec.stub.vars[j].ub, rec.stub.vars[j].type, rec.stub.vars[j].has_name ? "" : "(no names) ", rec.stub.vars[j].name.c_str());
-  for (auto& o : rec.stub.objs) fprintf(stderr, "  obj[%d] sense %d '%s' %zu lin %zu quad\n", o.iobj, o.sense, o.name.c_str(), o.lin.size(), o.quad.size());
+  for (auto& o : rec.stub.objs) {
+    fprintf(stderr, "  obj[%d] sense %d '%s' %zu lin %zu quad:", o.iobj, o.sense, o.name.c_str(), o.lin.size(), o.quad.size());
+    for (auto& t : o.lin) fprintf(stderr, " %.17g*x%d", t.coef, t.var);
+    fprintf(stderr, "\n");
+  }
   for (auto& c : rec.stub.cons) fprintf(stderr, "  con[%d] g%d#%d %s '%s' %s\n", c.order, c.group, c.idx_in_group, c.type.c_str(), c.name.c_str(), c.json.c_str());
   for (auto& c : rec.stub.calls) fprintf(stderr, "  call %s\n", c.c_str());
   fprintf(stderr, "---- history:\n");
